@@ -11,6 +11,7 @@ PROPERTY_MODULES = {
     "C03": ["contracts.c03"],
     "C04": ["contracts.c04"],
     "C05": ["contracts.c05"],
+    "C06": ["contracts.c05", "contracts.c06"],
 }
 
 
